@@ -54,7 +54,7 @@ type treeDecl struct {
 // gives nodes an alias; optMask marks nodes (bit 0 = parser) subcommands-optional;
 // clash = 0 none, else node (clash-1)/2 uses its parent's (even) or grandparent's (odd) flag letter.
 // sameName: 0 none, else the last node takes the name of node 0 when they are not siblings.
-func buildTree(par []int, aliasMask, optMask, clash int, sameName bool, exec bool, reqNode, posNode int, hiddenMask int, lateGroup bool, envInt bool) *treeDecl {
+func buildTree(par []int, aliasMask, optMask, clash int, sameName bool, exec bool, reqNode, posNode int, hiddenMask int, lateGroup bool, envInt bool, variant int) *treeDecl {
 	n := len(par)
 	letters := "abcd"
 	top := &decl.Cmd{Name: "app", Opts: []*decl.Opt{{Field: "P", Short: "p", Long: "pflag", Type: decl.TBools}}}
@@ -138,7 +138,15 @@ func buildTree(par []int, aliasMask, optMask, clash int, sameName bool, exec boo
 		top.Groups = []*decl.Group{{Field: "PG", Name: "Parser Group", Opts: top.Opts}}
 		top.Opts = nil
 	}
-	d := (&decl.Decl{Top: top}).Finish()
+	if variant == 2 {
+		// an argument-taking option of the parser: its separate argument may be spelled like a command
+		top.Opts = append(top.Opts, &decl.Opt{Field: "Out", Short: "o", Long: "out", Type: decl.TString})
+	}
+	dd := &decl.Decl{Top: top}
+	if variant == 1 {
+		dd.Options = flags.PassAfterNonOption
+	}
+	d := dd.Finish()
 	td := &treeDecl{d: d, cmds: cmds}
 	seen := map[string]bool{}
 	add := func(u ...string) {
@@ -160,6 +168,10 @@ func buildTree(par []int, aliasMask, optMask, clash int, sameName bool, exec boo
 	}
 	add("--flag" + string(letters[n-1]))
 	add("zzz")
+	if variant == 2 {
+		add("-o", cmds[0].Name)
+		add("--out", cmds[n-1].Name)
+	}
 	return td
 }
 
@@ -189,13 +201,13 @@ func init() {
 			rq = c.Choose(n + 1)
 			ps = c.Choose(n + 1)
 		}
-		key := fmt.Sprintf("s%d/a%d/o%d/c%d/n%v/x%v/r%d/p%d/h%d", si, am, om, cl, sn, exec, rq, ps, hm)
+		key := fmt.Sprintf("s%d/a%d/o%d/c%d/n%v/x%v/r%d/p%d/h%d/v%d", si, am, om, cl, sn, exec, rq, ps, hm, c08Variant)
 		td, ok := cache[key]
 		if !ok {
 			if len(cache) > 200 {
 				cache = map[string]*treeDecl{}
 			}
-			td = buildTree(par, am, om, cl, sn, exec, rq, ps, hm, c08LateGroup, false)
+			td = buildTree(par, am, om, cl, sn, exec, rq, ps, hm, c08LateGroup, false, c08Variant)
 			cache[key] = td
 		}
 		return td, key, td != nil
@@ -206,7 +218,12 @@ func init() {
 	body := func(c *explore.Ctx) {
 		mode := c.Choose(4) // 0 struct tags, 1 API, 2 API with executable (Commander) commands, 3 API with the parser's flag in a group added late
 		c08LateGroup = mode == 3
+		// 1: PassAfterNonOption is set; 2: the parser has a string option whose separate argument is spelled like a command name
+		c08Variant = c.Deviate(3)
 		td, key, ok := build(c, mode == 2)
+		if c08Variant != 0 {
+			c.Hit("variant")
+		}
 		if mode == 3 {
 			key += "/late"
 		}
@@ -321,7 +338,7 @@ func init() {
 			}
 			return 1
 		},
-		Rule: "every command tree with <= 4 commands and depth <= 3 (all 32 parent arrays) plus the chain of depth 4, one counter flag per node; deviations from the plain tree (bounded: 1 quick / 2 thorough): aliases on <= 2 nodes, " +
+		Rule: "every command tree with <= 4 commands and depth <= 3 (all 32 parent arrays) plus the chain of depth 4, one counter flag per node; deviations from the plain tree (bounded: 1 quick / 2 thorough): PassAfterNonOption set, a string option of the parser given a command name as its separate argument, aliases on <= 2 nodes, " +
 			"subcommands-optional on any subset of inner nodes incl. the parser, one node's flag letter clashing with its parent's or grandparent's, a deeper command reusing a top-level command's name, any subset of commands hidden; " +
 			"x {struct tags, API, API with executable commands, API where the parser's flag sits in a group that is added after the commands and after a parse that selected each of them} x every sequence of <= 3 tokens (thorough: <= 4 for the tag and plain API builds) over all names, aliases, every node's flag, one long flag and an unknown word, plus beyond that bound [unit, full path to any node, unit]; oracle = CLM active chain, scoping (which counter was incremented), " +
 			"remaining arguments and ErrCommandRequired / ErrUnknownCommand",
@@ -333,6 +350,7 @@ func init() {
 }
 
 var c08LateGroup bool
+var c08Variant int
 
 var c08build func(c *explore.Ctx, exec bool) (*treeDecl, string, bool)
 var buildX func(c *explore.Ctx, exec bool, extras bool) (*treeDecl, string, bool)
